@@ -19,6 +19,7 @@ type modTarget struct {
 	lo, hi string // index range when rows
 	path   []int
 	text   string
+	whole  bool // every row of the heap (modifies rows(T))
 }
 
 func (x *Exec) calleeAndArgs(st *State, fr *Frame, cc *ssa.CallCommon) (Val, []Val) {
@@ -551,7 +552,13 @@ func (x *Exec) applyContract(st *State, fr *Frame, callee *ssa.Function, con *Co
 		if fr != nil && fr.inl != "" {
 			lbl = fr.inl + "." + lbl
 		}
-		x.emit(st, "pre", lbl, "precondition of "+cname+": "+rq.Text, g.T, nil, pos, fr)
+		if parts := splitGoal(g.T); len(parts) > 1 {
+			for pi, part := range parts {
+				x.emit(st, "pre", fmt.Sprintf("%s#%d", lbl, pi+1), "precondition of "+cname+": "+rq.Text, part, nil, pos, fr)
+			}
+		} else {
+			x.emit(st, "pre", lbl, "precondition of "+cname+": "+rq.Text, g.T, nil, pos, fr)
+		}
 		st.assume(g.T)
 	}
 	snap := st.snapshot()
@@ -632,6 +639,28 @@ func (x *Exec) havocTarget(st *State, fr *Frame, env *Env, m *Expr, pos token.Po
 			st.declare(nl, "Int")
 			st.assume(sx(">=", nl, "0"))
 			x.setHeap(st, "DISKLEN", "(Array Int Int)", sx("store", hl, x.termOf(v), nl))
+		}
+		return
+	}
+	if m.Op == "call" && m.Name == "rows" {
+		// rows(T): any element of any []T may change (used where the touched slices are not nameable)
+		key, hs, el := x.rowsTarget(env.pkg, m)
+		st.heap(key, hs)
+		if check && x.frameApplies() {
+			ok := false
+			for _, t := range x.modset {
+				if t.whole && t.heap == key {
+					ok = true
+				}
+			}
+			if !ok {
+				x.emit(st, "frame", "rows-in-frame@"+x.P.pos(pos), "callee modifies rows("+m.Args[0].Name+") which is not in the modifies clause", "false", nil, pos, fr)
+			}
+		}
+		nh := x.havocHeap(st, key)
+		r, k := x.freshName("r"), x.freshName("k")
+		if rf := ss.rangeFact(el, sx("select", sx("select", nh, r), k), st.top); rf != "true" {
+			st.assume(fmt.Sprintf("(forall ((%s Int) (%s Int)) (! (=> (<= %s %s) %s) :pattern ((select (select %s %s) %s))))", r, k, r, st.top, rf, nh, r, k))
 		}
 		return
 	}
@@ -748,6 +777,9 @@ func (x *Exec) frameCheck(st *State, fr *Frame, p *Pointer, pos token.Pos) {
 	var alts []string
 	alts = append(alts, sx(">", p.Root, x.entry.top))
 	for _, t := range x.modset {
+		if t.whole && t.heap == p.Heap && p.Rows {
+			return
+		}
 		if t.heap != p.Heap || !pathPrefix(t.path, p.Path) {
 			continue
 		}
@@ -774,6 +806,9 @@ func (x *Exec) frameCheckRegion(st *State, fr *Frame, heap, root, lo, hi string,
 	var alts []string
 	alts = append(alts, sx(">", root, x.entry.top), sx(">=", lo, hi))
 	for _, t := range x.modset {
+		if t.whole && t.heap == heap {
+			return
+		}
 		if t.heap != heap || !t.rows || len(t.path) > 0 {
 			continue
 		}
@@ -821,6 +856,9 @@ func (x *Exec) computeModset(st *State, env *Env) {
 		case m.Op == "call" && m.Name == "ghost":
 			v := x.evalSpec(m.Args[1], env)
 			t.heap, t.root = "G_"+m.Args[0].Name, x.termOf(v)
+		case m.Op == "call" && m.Name == "rows":
+			key, _, _ := x.rowsTarget(env.pkg, m)
+			t.heap, t.whole, t.rows, t.root, t.lo, t.hi = key, true, true, "0", "0", "0"
 		case m.Op == "slice":
 			base := x.evalSpec(m.Args[0], env)
 			lo := "0"
@@ -931,4 +969,17 @@ func contractMayAllocate(con *Contract) bool {
 		}
 	}
 	return false
+}
+
+// rowsTarget resolves modifies rows(T) to the row heap of []T.
+func (x *Exec) rowsTarget(pkg string, m *Expr) (key, sort string, el types.Type) {
+	if len(m.Args) != 1 || m.Args[0].Op != "ident" {
+		bail("rows() expects a type name")
+	}
+	t := x.resolveType(pkg, m.Args[0].Name)
+	if t == nil {
+		bail("rows(%s): unknown type", m.Args[0].Name)
+	}
+	ss := x.P.ss
+	return ss.heapKey(t, true), ss.heapSort(t, true), t
 }
